@@ -109,8 +109,8 @@ func flagOptions(flags uint32, salt int) []interpreter.ExecutionOptionFunc {
 // libOptions builds the Execute options for a program; scripts are copied so
 // that the monitor's own input is never shared with the library.
 func libOptions(in *progInput) (opts []interpreter.ExecutionOptionFunc, tx *bt.Tx, unlock, lock *bscript.Script) {
-	unlock = bscript.NewFromBytes(append([]byte{}, in.Unlock...))
-	lock = bscript.NewFromBytes(append([]byte{}, in.Lock...))
+	unlock = bscript.NewFromBytes(mon.Exact(in.Unlock))
+	lock = bscript.NewFromBytes(mon.Exact(in.Lock))
 	if in.Ctx.HasTx {
 		tx = &bt.Tx{Version: in.Ctx.Version, LockTime: in.Ctx.LockTime}
 		inp := &bt.Input{PreviousTxOutIndex: 0, SequenceNumber: in.Ctx.Sequence, UnlockingScript: unlock}
